@@ -106,6 +106,11 @@ pub enum Driver {
     /// like `FmtAbandonThen`, but the `Display` impl panics after writing its text (the panic is caught): a stream
     /// that parked its state somewhere while formatting must have it back afterwards
     FmtPanicThen(usize),
+    /// `write_all` / `write!` on a strip stream whose inner writer is itself a strip stream (a writer that was already
+    /// wrapped once): stripping twice delivers what stripping once delivers, and nothing per-thread may be shared
+    /// between the two levels
+    NestedWriteAll,
+    NestedFmt(usize),
 }
 
 /// see `Driver::FmtPanicThen`
@@ -543,9 +548,10 @@ pub fn run_case(mode: Mode, input: &[u8], driver: Driver, script: Script) -> (Re
                     }
                 }
             }
-            Driver::WriteAll | Driver::WriteFmt(_) | Driver::FmtLiteral(_) | Driver::FmtPad => {
+            Driver::WriteAll | Driver::WriteFmt(_) | Driver::FmtLiteral(_) | Driver::FmtPad | Driver::NestedWriteAll | Driver::NestedFmt(_) => {
                 let mut strip_s;
                 let mut auto_s;
+                let boxed: Box<dyn Write> = if matches!(driver, Driver::NestedWriteAll | Driver::NestedFmt(_)) { Box::new(anstream::StripStream::new(boxed)) } else { boxed };
                 let stream: &mut dyn Write = match mode {
                     Mode::Strip => {
                         strip_s = anstream::StripStream::new(boxed);
@@ -568,8 +574,8 @@ pub fn run_case(mode: Mode, input: &[u8], driver: Driver, script: Script) -> (Re
                         let w = t.chars().count() + 2;
                         write!(stream, "[{:\u{b7}>w$}]{}{}{}{}{:?}", t, 'c', '\u{e9}', '\u{4e16}', '\u{1f600}', 'd', w = w)
                     }
-                    Driver::WriteAll => stream.write_all(input),
-                    Driver::WriteFmt(cut) => {
+                    Driver::WriteAll | Driver::NestedWriteAll => stream.write_all(input),
+                    Driver::WriteFmt(cut) | Driver::NestedFmt(cut) => {
                         let a = std::str::from_utf8(&input[..cut]).map_err(|_| "machinery: fragment not UTF-8".to_string())?;
                         let b = std::str::from_utf8(&input[cut..]).map_err(|_| "machinery: fragment not UTF-8".to_string())?;
                         write!(stream, "{a}{b}")
@@ -639,8 +645,10 @@ pub fn drivers_for(tokens: &[usize]) -> Vec<Driver> {
         p += SYMS[t].len();
         bounds.push(p);
     }
+    d.push(Driver::NestedWriteAll);
     for &c in &bounds {
         d.push(Driver::WriteFmt(c));
+        d.push(Driver::NestedFmt(c));
         if c > 0 && c < input.len() {
             d.push(Driver::TwoWriteAll(c));
             d.push(Driver::TwoFmt(c));
@@ -698,6 +706,10 @@ pub fn parse_driver(s: &str) -> Driver {
         Driver::FmtStubborn(nums[0])
     } else if s.starts_with("FmtAbandonThen") {
         Driver::FmtAbandonThen(nums[0])
+    } else if s.starts_with("NestedWriteAll") {
+        Driver::NestedWriteAll
+    } else if s.starts_with("NestedFmt") {
+        Driver::NestedFmt(nums[0])
     } else if s.starts_with("FmtPanicThen") {
         Driver::FmtPanicThen(nums[0])
     } else if s.starts_with("WriteAll") {
@@ -727,6 +739,8 @@ pub fn driver_label(mode: Mode, driver: Driver) -> String {
         Driver::FmtStubborn(_) => "write_fmt-display-continues-after-error".to_string(),
         Driver::FmtAbandonThen(_) => "write_fmt-abandoned-by-display; write_all".to_string(),
         Driver::FmtPanicThen(_) => "write_fmt-display-panics; write_all".to_string(),
+        Driver::NestedWriteAll => "write_all over a nested strip stream".to_string(),
+        Driver::NestedFmt(_) => "write_fmt over a nested strip stream".to_string(),
     };
     format!("{m}/{d}")
 }
@@ -752,7 +766,7 @@ pub fn sweep(mode: Mode, maxlen: usize, k_of: &(dyn Fn(usize) -> usize + Sync)) 
             if mode != Mode::Strip {
                 // (in the pass-through modes write! is std's own `io::Write::write_fmt` of the inner writer, which panics
                 // by design when a Display impl fails on its own)
-                d.retain(|d| *d != Driver::AutoNeverProtocol && !matches!(d, Driver::FmtAbandonThen(_)));
+                d.retain(|d| *d != Driver::AutoNeverProtocol && !matches!(d, Driver::FmtAbandonThen(_) | Driver::NestedWriteAll | Driver::NestedFmt(_)));
             }
             (input, toks.len(), d)
         })
